@@ -23,6 +23,15 @@ def times(T, start):
     from ibicus.utils import create_array_of_consecutive_dates
     return create_array_of_consecutive_dates(T, np.datetime64(start))
 
+def cond_tol(v, den, scale):
+    """absolute tolerance for 100 * (a - b) / b computed in float64 from data of magnitude [scale]:
+    the rounding error of the denominator (~1e-15 * scale) is amplified by |v| / |den|"""
+    v = np.asarray(v, dtype=float); den = np.abs(np.asarray(den, dtype=float))
+    if v.size == 0 or not np.all(np.isfinite(v)) or np.any(den == 0):
+        return "(1#1000000000)"
+    t = max(1e-9, 1e-12 * float(np.max(np.abs(v))) * scale / float(np.min(den)))
+    return C.q(Fraction(t).limit_denominator(10 ** 15))
+
 def opt(expr, val, tol="(1#1000000000)"):
     if val is not None and not np.all(np.isfinite(np.asarray(val, dtype=float))):
         return None          # division by zero in the implementation (inf/nan): outside the formulas' domain
@@ -77,7 +86,8 @@ def correspondence(res, tier, seed):
             for tt_ in ("additive", "multiplicative"):
                 mult = tt_ == "multiplicative"
                 v = TR._calculate_mean_trend_bias(tt_, rv, rf, bv, bf)
-                add(None if not np.all(np.isfinite(v)) else "close_list (mean_trend_bias %s %s %s %s %s) %s (1#1000000000)" % (B(mult), cells(rv), cells(rf), cells(bv), cells(bf), C.ql(v.reshape(-1))), dict(func="_calculate_mean_trend_bias", trend_type=tt_, **info), ("mean_trend_bias", tt_))
+                tolv = cond_tol(v, (rf.mean(axis=0) - rv.mean(axis=0)) if not mult else rv.mean(axis=0), 40.0)
+                add(None if not np.all(np.isfinite(v)) else "close_list (mean_trend_bias %s %s %s %s %s) %s %s" % (B(mult), cells(rv), cells(rf), cells(bv), cells(bf), C.ql(v.reshape(-1)), tolv), dict(func="_calculate_mean_trend_bias", trend_type=tt_, **info), ("mean_trend_bias", tt_))
                 v = TR._calculate_mean_trend(tt_, bv, bf)
                 add("close_list (mean_trend %s %s %s) %s (1#1000000000)" % (B(mult), cells(bv), cells(bf), C.ql(v.reshape(-1))), dict(func="_calculate_mean_trend", trend_type=tt_, **info), ("mean_trend", tt_))
                 q = Fraction(r.randint(1, 19), 20)
@@ -85,7 +95,8 @@ def correspondence(res, tier, seed):
                     try: return f(*a)
                     except ZeroDivisionError: return None
                 v = safe(TR._calculate_quantile_trend_bias, tt_, float(q), rv, rf, bv, bf)
-                add(opt("quantile_trend_bias %s %s %s %s %s %s" % (B(mult), C.q(q), cells(rv), cells(rf), cells(bv), cells(bf)), v), dict(func="_calculate_quantile_trend_bias", trend_type=tt_, q=str(q), **info), ("q_trend_bias", tt_, X * Y > 1))
+                tolq = cond_tol(v, (np.quantile(rf, float(q), axis=0) - np.quantile(rv, float(q), axis=0)) if not mult else np.quantile(rv, float(q), axis=0), 40.0) if v is not None else "(1#1000000000)"
+                add(opt("quantile_trend_bias %s %s %s %s %s %s" % (B(mult), C.q(q), cells(rv), cells(rf), cells(bv), cells(bf)), v, tolq), dict(func="_calculate_quantile_trend_bias", trend_type=tt_, q=str(q), **info), ("q_trend_bias", tt_, X * Y > 1))
                 v = safe(TR._calculate_quantile_trend, tt_, float(q), bv, bf)
                 add(opt("quantile_trend %s %s %s %s" % (B(mult), C.q(q), cells(bv), cells(bf)), v), dict(func="_calculate_quantile_trend", trend_type=tt_, q=str(q), **info), ("q_trend", tt_, X * Y > 1))
                 P = [m.calculate_exceedance_probability(a).reshape(-1) for a in (rv, rf, bv, bf)]
